@@ -52,6 +52,10 @@ def nested_tree(draw, leaves, polytomies=0, max_arity=4):
     forest = list(leaves)
     poly_left = polytomies
     cap = max_arity
+    # a third of the trees are caterpillars (maximal depth): deep chains of species are what
+    # distance-dependent loss counting needs and uniform joins almost never produce beyond 4 leaves
+    caterpillar = len(forest) >= 4 and chance(draw, 1, 3)
+    grown = None
     while len(forest) > 1:
         k = 2
         if poly_left and len(forest) >= 3 and chance(draw, 3, 4):
@@ -59,10 +63,16 @@ def nested_tree(draw, leaves, polytomies=0, max_arity=4):
             poly_left -= 1
             cap = 3
         picked = []
-        for _ in range(k):
-            i = draw(st.integers(0, len(forest) - 1))
+        for n in range(k):
+            if caterpillar and n == 0 and grown is not None and grown in forest:
+                i = forest.index(grown)
+            else:
+                i = draw(st.integers(0, len(forest) - 1))
             picked.append(forest.pop(i))
-        forest.append(tuple(picked))
+        if draw(st.booleans()):
+            picked.reverse()
+        grown = tuple(picked)
+        forest.append(grown)
     return forest[0]
 
 
